@@ -188,9 +188,18 @@ def build_components(spec, tmpdir=None):
     return kw
 
 
+def apply_post(doc, spec):
+    """"post_assign": [[component attribute of the document, field, value], ...] - attribute assignments made
+    AFTER construction (pydantic does not re-validate them), e.g. a palette that is only found invalid when the
+    document is encoded"""
+    for comp, field, value in spec.get("post_assign") or []:
+        setattr(getattr(doc, comp), field, value)
+    return doc
+
+
 def build(spec, tmpdir=None):
     import rtflite as rtf
-    return rtf.RTFDocument(**build_components(spec, tmpdir))
+    return apply_post(rtf.RTFDocument(**build_components(spec, tmpdir)), spec)
 
 
 def strip_meta(spec):
